@@ -47,7 +47,7 @@ def run(ctx):
                 "from Reader.tla. Non-trivial = rejected with a line or accepted with at least one print")
     ctx.assumptions = ["TLC's evaluation of the specification"]
     if ctx.tier == "quick":
-        plan = [("Stmt_errors_quick.cfg", 2, False, 1)]
+        plan = [("Stmt_errors_quick.cfg", 2, False, 2)]      # sequences of four lines sampled 1/2
     else:
         plan = [("Stmt_errors_thorough.cfg", 2, False, 1), ("Stmt_all_thorough.cfg", 2, False, 1)]
     for cfg, nv, rt, sm in plan:
